@@ -1,15 +1,452 @@
 package main
 
 import (
+	"bytes"
+	"context"
 	"fmt"
+	"go/types"
 	"os"
+	"os/exec"
+	"path/filepath"
+	"strings"
+	"time"
+
+	"golang.org/x/tools/go/ssa"
 
 	"verif/internal/vc"
 )
 
+// Replay of a solver counterexample against the real code (level 1 of DESIGN 2.8): the function's inputs
+// (scalars, slices of integers, pointers to structs with scalar / pointer / slice fields, to depth 3) are
+// rebuilt from the model as Go values inside an in-package test injected with `go test -overlay`; the real
+// function is called under recover; a no-panic obligation is reproduced when the call panics, a
+// postcondition when its Go translation evaluates to false.
+
+type replayer struct {
+	e      *vc.Engine
+	v      *vc.VC
+	o      *vc.Obligation
+	fixed  []string          // (assert (= term value)) lines pinning the model between queries
+	cache  map[string]string // term -> decimal value
+	dir    string
+	nq     int
+	objs   map[string]string // ref value (decimal) + type -> Go variable
+	decls  []string          // Go statements building the inputs
+	nvar   int
+	failed string
+	pkg    *types.Package
+}
+
+func (rp *replayer) query(terms []string) bool {
+	var need []string
+	for _, t := range terms {
+		if _, ok := rp.cache[t]; !ok {
+			need = append(need, t)
+		}
+	}
+	if len(need) == 0 {
+		return true
+	}
+	script := rp.v.ModelScript(rp.o, nil, true)
+	// insert pins before (check-sat)
+	k := strings.LastIndex(script, "(check-sat)")
+	script = script[:k] + strings.Join(rp.fixed, "\n") + "\n(check-sat)\n"
+	for _, t := range need {
+		script += "(get-value (" + t + "))\n"
+	}
+	rp.nq++
+	file := filepath.Join(rp.dir, fmt.Sprintf("model%d.smt2", rp.nq))
+	if err := os.WriteFile(file, []byte(script), 0o644); err != nil {
+		return false
+	}
+	ctx, cancel := context.WithTimeout(context.Background(), 25*time.Second)
+	defer cancel()
+	cmd := exec.CommandContext(ctx, "z3-new", "-T:20", file)
+	var out bytes.Buffer
+	cmd.Stdout = &out
+	cmd.Stderr = &out
+	_ = cmd.Run()
+	lines := strings.Split(out.String(), "\n")
+	if len(lines) == 0 || strings.TrimSpace(lines[0]) != "sat" {
+		rp.failed = "model query answered " + strings.TrimSpace(lines[0])
+		return false
+	}
+	// parse get-value answers: "((term value))" possibly spanning lines; join and split by top-level parens
+	rest := strings.Join(lines[1:], " ")
+	vals := splitTopLevel(rest)
+	if len(vals) < len(need) {
+		rp.failed = "model query returned fewer values than requested"
+		return false
+	}
+	for i, t := range need {
+		a := strings.TrimSpace(vals[i])
+		// a = "((term value))": value is the last top-level item inside
+		inner := strings.TrimSpace(a)
+		inner = strings.TrimPrefix(inner, "(")
+		inner = strings.TrimSuffix(inner, ")")
+		inner = strings.TrimSpace(inner)
+		inner = strings.TrimPrefix(inner, "(")
+		inner = strings.TrimSuffix(inner, ")")
+		val := lastItem(inner)
+		dec, ok := vc.ParseBV(val)
+		if !ok {
+			rp.failed = "unparsable model value " + val
+			return false
+		}
+		rp.cache[t] = dec
+		rp.fixed = append(rp.fixed, "(assert (= "+t+" "+val+"))")
+	}
+	return true
+}
+
+func splitTopLevel(s string) []string {
+	var out []string
+	depth, start := 0, -1
+	for i := 0; i < len(s); i++ {
+		switch s[i] {
+		case '(':
+			if depth == 0 {
+				start = i
+			}
+			depth++
+		case ')':
+			depth--
+			if depth == 0 && start >= 0 {
+				out = append(out, s[start:i+1])
+				start = -1
+			}
+		}
+	}
+	return out
+}
+
+func lastItem(s string) string {
+	s = strings.TrimSpace(s)
+	if strings.HasSuffix(s, ")") {
+		depth := 0
+		for i := len(s) - 1; i >= 0; i-- {
+			switch s[i] {
+			case ')':
+				depth++
+			case '(':
+				depth--
+				if depth == 0 {
+					return s[i:]
+				}
+			}
+		}
+	}
+	if k := strings.LastIndexAny(s, " \t"); k >= 0 {
+		return s[k+1:]
+	}
+	return s
+}
+
+func (rp *replayer) get(term string) (string, bool) {
+	if !rp.query([]string{term}) {
+		return "", false
+	}
+	return rp.cache[term], true
+}
+
+func (rp *replayer) newVar(prefix string) string {
+	rp.nvar++
+	return fmt.Sprintf("%s%d", prefix, rp.nvar)
+}
+
+func (rp *replayer) typeExpr(t types.Type) string {
+	return types.TypeString(t, func(p *types.Package) string {
+		if p == rp.pkg {
+			return ""
+		}
+		return p.Name()
+	})
+}
+
+func signedDec(dec string, t types.Type) string {
+	b, ok := t.Underlying().(*types.Basic)
+	if !ok || b.Info()&types.IsUnsigned != 0 {
+		return dec
+	}
+	var v uint64
+	fmt.Sscan(dec, &v)
+	switch b.Kind() {
+	case types.Int8:
+		return fmt.Sprint(int8(v))
+	case types.Int16:
+		return fmt.Sprint(int16(v))
+	case types.Int32:
+		return fmt.Sprint(int32(v))
+	default:
+		return fmt.Sprint(int64(v))
+	}
+}
+
+// valueExpr builds a Go expression for a value of type t whose leaves are the given SMT terms.
+func (rp *replayer) valueExpr(t types.Type, leaves []string, depth int) (string, bool) {
+	switch u := t.Underlying().(type) {
+	case *types.Basic:
+		switch {
+		case u.Info()&types.IsBoolean != 0:
+			d, ok := rp.get(leaves[0])
+			return fmt.Sprint(d == "1"), ok
+		case u.Info()&types.IsInteger != 0:
+			d, ok := rp.get(leaves[0])
+			if !ok {
+				return "", false
+			}
+			return rp.typeExpr(t) + "(" + signedDec(d, t) + ")", true
+		}
+		return "", false
+	case *types.Slice:
+		bd, ok1 := rp.get(leaves[0])
+		od, ok2 := rp.get(leaves[1])
+		ld, ok3 := rp.get(leaves[2])
+		if !ok1 || !ok2 || !ok3 {
+			return "", false
+		}
+		var n, off uint64
+		fmt.Sscan(ld, &n)
+		fmt.Sscan(od, &off)
+		if bd == "0" && n == 0 {
+			return "(" + rp.typeExpr(t) + ")(nil)", true
+		}
+		if n > 4096 {
+			rp.failed = fmt.Sprintf("model slice too long (%d)", n)
+			return "", false
+		}
+		els := rp.v.E.LeavesOf(u.Elem())
+		if len(els) != 1 {
+			rp.failed = "slice of composite elements"
+			return "", false
+		}
+		base := leaves[0]
+		var terms []string
+		for i := uint64(0); i < n; i++ {
+			terms = append(terms, rp.v.EntrySliceElemTerm(u.Elem(), els[0].Path, base, fmt.Sprintf("(_ bv%d 64)", off+i)))
+		}
+		if !rp.v.Declared(rp.v.HeapConstName(rp.v.ClassSlice(u.Elem(), els[0].Path))) {
+			// contents never read: zeros
+			return fmt.Sprintf("make(%s, %d)", rp.typeExpr(t), n), true
+		}
+		if !rp.query(terms) {
+			return "", false
+		}
+		var parts []string
+		for _, tm := range terms {
+			parts = append(parts, signedDec(rp.cache[tm], u.Elem()))
+		}
+		return rp.typeExpr(t) + "{" + strings.Join(parts, ", ") + "}", true
+	case *types.Pointer:
+		rd, ok := rp.get(leaves[0])
+		if !ok {
+			return "", false
+		}
+		if rd == "0" {
+			return "(" + rp.typeExpr(t) + ")(nil)", true
+		}
+		sty, isStruct := u.Elem().Underlying().(*types.Struct)
+		if !isStruct {
+			rp.failed = "pointer to non-struct parameter"
+			return "", false
+		}
+		key := rd + "|" + rp.typeExpr(u.Elem())
+		if v, seen := rp.objs[key]; seen {
+			return v, true
+		}
+		if depth > 3 {
+			return "(" + rp.typeExpr(t) + ")(nil)", true
+		}
+		name := rp.newVar("obj")
+		rp.objs[key] = name
+		rp.decls = append(rp.decls, fmt.Sprintf("%s := new(%s)", name, rp.typeExpr(u.Elem())))
+		ref := fmt.Sprintf("(_ bv%s 64)", rd)
+		if !rp.fillStruct(name, u.Elem(), sty, ref, depth) {
+			return "", false
+		}
+		return name, true
+	}
+	return "", false
+}
+
+func (rp *replayer) fillStruct(lhs string, st types.Type, sty *types.Struct, ref string, depth int) bool {
+	for i := 0; i < sty.NumFields(); i++ {
+		f := sty.Field(i)
+		ft := f.Type()
+		if nested, ok := ft.Underlying().(*types.Struct); ok {
+			if _, isNamed := ft.(*types.Named); isNamed && ft.(*types.Named).Obj().Pkg() != nil && ft.(*types.Named).Obj().Pkg().Name() == "sync" {
+				continue
+			}
+			if !rp.fillStruct(lhs+"."+f.Name(), ft, nested, rp.v.SubRefTerm(st, f.Name(), ref), depth) {
+				return false
+			}
+			continue
+		}
+		ls := rp.v.E.LeavesOf(ft)
+		switch ft.Underlying().(type) {
+		case *types.Basic, *types.Slice, *types.Pointer:
+		default:
+			continue // maps, interfaces, funcs, channels: left zero
+		}
+		if b, ok := ft.Underlying().(*types.Basic); ok && b.Info()&(types.IsInteger|types.IsBoolean) == 0 {
+			continue
+		}
+		if rp.v.E.AddrTaken(st, f.Name()) {
+			continue
+		}
+		var leaves []string
+		allKnown := true
+		for _, l := range ls {
+			class := rp.v.ClassField(st, f.Name(), l.Path)
+			if !rp.v.Declared(rp.v.HeapConstName(class)) {
+				allKnown = false
+			}
+			leaves = append(leaves, rp.v.EntryFieldTerm(st, f.Name(), l.Path, ref))
+		}
+		if !allKnown {
+			continue // field never read by the verification condition: irrelevant, left zero
+		}
+		ex, ok := rp.valueExpr(ft, leaves, depth+1)
+		if !ok {
+			if rp.failed != "" {
+				return false
+			}
+			continue
+		}
+		rp.decls = append(rp.decls, fmt.Sprintf("%s.%s = %s", lhs, f.Name(), ex))
+	}
+	return true
+}
+
 // tryReplay attempts to reproduce a failed obligation's model on the real code.
 func tryReplay(opts RunOpts, r *vc.Result, e *vc.Engine) (bool, string) {
-	return false, "no replay harness for this function; model attached"
+	o := r.Obl
+	fn := e.Func(o.Func)
+	if fn == nil || fn.Blocks == nil || fn.Parent() != nil {
+		return false, "no replay: not a top-level function"
+	}
+	isK1 := false
+	switch o.Kind {
+	case "nil", "bounds", "div", "assert", "panic", "typeassert":
+		isK1 = true
+	case "ensures":
+	default:
+		return false, "no replay harness for obligations of kind " + o.Kind + " (path-shaped counterexample); model attached"
+	}
+	dir, err := os.MkdirTemp("/var/tmp", "govc-replay.")
+	if err != nil {
+		return false, err.Error()
+	}
+	defer os.RemoveAll(dir)
+	rp := &replayer{e: e, v: r.VC, o: o, cache: map[string]string{}, dir: dir, objs: map[string]string{}}
+	if fn.Pkg != nil {
+		rp.pkg = fn.Pkg.Pkg
+	}
+	// parameters
+	var args []string
+	widx := 0
+	for _, p := range fn.Params {
+		ls := e.LeavesOf(p.Type())
+		var leaves []string
+		for range ls {
+			if widx >= len(o.Watch) {
+				return false, "no replay: parameter terms unavailable"
+			}
+			leaves = append(leaves, o.Watch[widx].Term)
+			widx++
+		}
+		ex, ok := rp.valueExpr(p.Type(), leaves, 0)
+		if !ok {
+			why := rp.failed
+			if why == "" {
+				why = "parameter " + p.Name() + " of type " + p.Type().String() + " cannot be rebuilt from a model"
+			}
+			return false, "no replay: " + why
+		}
+		v := rp.newVar("arg")
+		rp.decls = append(rp.decls, fmt.Sprintf("%s := %s", v, ex))
+		args = append(args, v)
+	}
+	// call expression
+	var call string
+	if fn.Signature.Recv() != nil {
+		call = args[0] + "." + fn.Name() + "(" + strings.Join(args[1:], ", ") + ")"
+	} else {
+		call = fn.Name() + "(" + strings.Join(args, ", ") + ")"
+	}
+	nres := fn.Signature.Results().Len()
+	var resNames []string
+	for i := 0; i < nres; i++ {
+		resNames = append(resNames, fmt.Sprintf("res%d", i))
+	}
+	check := "true"
+	preOld := ""
+	if !isK1 {
+		tr := &goTranslator{e: e, fn: fn, args: args, res: resNames, pkg: rp.pkg}
+		ex, err := tr.clause(o.Detail)
+		if err != nil {
+			return false, "no replay: the clause cannot be evaluated at run time (" + err.Error() + "); model attached"
+		}
+		check = ex
+		preOld = strings.Join(tr.oldDecls, "\n\t")
+	}
+	var src strings.Builder
+	fmt.Fprintf(&src, "package %s\n\nimport (\n\t\"fmt\"\n\t\"testing\"\n)\n\n", rp.pkg.Name())
+	src.WriteString("func TestGovcReplay(t *testing.T) {\n")
+	for _, d := range rp.decls {
+		src.WriteString("\t" + d + "\n")
+	}
+	for _, a := range args {
+		src.WriteString("\t_ = " + a + "\n")
+	}
+	if preOld != "" {
+		src.WriteString("\t" + preOld + "\n")
+	}
+	src.WriteString("\tpanicked := false\n\tvar pv interface{}\n")
+	for i, rn := range resNames {
+		fmt.Fprintf(&src, "\tvar %s %s\n\t_ = %s\n", rn, rp.typeExpr(fn.Signature.Results().At(i).Type()), rn)
+	}
+	src.WriteString("\tfunc() {\n\t\tdefer func() { if p := recover(); p != nil { panicked = true; pv = p } }()\n")
+	if nres > 0 {
+		src.WriteString("\t\t" + strings.Join(resNames, ", ") + " = " + call + "\n")
+	} else {
+		src.WriteString("\t\t" + call + "\n")
+	}
+	src.WriteString("\t}()\n")
+	if isK1 {
+		src.WriteString("\tif panicked { fmt.Printf(\"GOVC-REPRODUCED panic: %v\\n\", pv) } else { fmt.Println(\"GOVC-NOT-REPRODUCED no panic\") }\n")
+	} else {
+		src.WriteString("\tif panicked { fmt.Printf(\"GOVC-REPRODUCED panic: %v\\n\", pv); return }\n")
+		src.WriteString("\tholds := func() (ok bool) { defer func() { if recover() != nil { ok = false } }(); return " + check + " }()\n")
+		src.WriteString("\tif !holds { fmt.Println(\"GOVC-REPRODUCED postcondition is false\") } else { fmt.Println(\"GOVC-NOT-REPRODUCED postcondition holds\") }\n")
+	}
+	src.WriteString("}\n")
+	testFile := filepath.Join(dir, "zz_govc_replay_test.go")
+	if err := os.WriteFile(testFile, []byte(src.String()), 0o644); err != nil {
+		return false, err.Error()
+	}
+	pkgDir := opts.Repo
+	if rel := strings.TrimPrefix(strings.TrimPrefix(rp.pkg.Path(), vc.ModulePath), "/"); rel != "" {
+		pkgDir = filepath.Join(opts.Repo, rel)
+	}
+	ov := fmt.Sprintf("{\"Replace\":{%q:%q}}", filepath.Join(pkgDir, "zz_govc_replay_test.go"), testFile)
+	ovFile := filepath.Join(dir, "ov.json")
+	_ = os.WriteFile(ovFile, []byte(ov), 0o644)
+	ctx, cancel := context.WithTimeout(context.Background(), 150*time.Second)
+	defer cancel()
+	cmd := exec.CommandContext(ctx, "go", "test", "-tags", "verif", "-overlay", ovFile, "-vet=off", "-count=1", "-timeout", "60s", "-run", "^TestGovcReplay$", "-v", ".")
+	cmd.Dir = pkgDir
+	cmd.Env = append(os.Environ(), "GOFLAGS=-mod=mod", "GOPROXY=off", "GOSUMDB=off", "GOTOOLCHAIN=local")
+	var out bytes.Buffer
+	cmd.Stdout = &out
+	cmd.Stderr = &out
+	_ = cmd.Run()
+	text := out.String()
+	detail := "replay test (in-package, injected with -overlay):\n" + src.String() + "\noutput:\n" + head(text, 30)
+	if strings.Contains(text, "GOVC-REPRODUCED") {
+		return true, detail
+	}
+	return false, detail
 }
 
 func runReplay(repo, verif, prop, path string) int {
@@ -19,9 +456,41 @@ func runReplay(repo, verif, prop, path string) int {
 		return 2
 	}
 	os.Stdout.Write(data)
+	fmt.Println()
+	// re-run the recorded test, if any
+	var rep map[string]interface{}
+	if err := jsonUnmarshal(data, &rep); err == nil {
+		if s, ok := rep["replay"].(string); ok && strings.Contains(s, "func TestGovcReplay") {
+			a := strings.Index(s, "package ")
+			b := strings.Index(s, "\noutput:\n")
+			if a >= 0 && b > a {
+				src := s[a:b]
+				dir, _ := os.MkdirTemp("/var/tmp", "govc-replay.")
+				defer os.RemoveAll(dir)
+				testFile := filepath.Join(dir, "zz_govc_replay_test.go")
+				_ = os.WriteFile(testFile, []byte(src), 0o644)
+				pkgName := strings.Fields(src)[1]
+				pkgDir := repo
+				switch pkgName {
+				case "http", "chunk", "internal", "fuse", "consul", "lfsc":
+					pkgDir = map[string]string{"http": repo + "/http", "chunk": repo + "/internal/chunk", "internal": repo + "/internal", "fuse": repo + "/fuse", "consul": repo + "/consul", "lfsc": repo + "/lfsc"}[pkgName]
+				}
+				ov := fmt.Sprintf("{\"Replace\":{%q:%q}}", filepath.Join(pkgDir, "zz_govc_replay_test.go"), testFile)
+				ovFile := filepath.Join(dir, "ov.json")
+				_ = os.WriteFile(ovFile, []byte(ov), 0o644)
+				cmd := exec.Command("go", "test", "-tags", "verif", "-overlay", ovFile, "-vet=off", "-count=1", "-timeout", "60s", "-run", "^TestGovcReplay$", "-v", ".")
+				cmd.Dir = pkgDir
+				cmd.Env = append(os.Environ(), "GOFLAGS=-mod=mod", "GOPROXY=off", "GOSUMDB=off", "GOTOOLCHAIN=local")
+				out, _ := cmd.CombinedOutput()
+				fmt.Println("--- re-run against the current tree ---")
+				fmt.Println(string(out))
+				if strings.Contains(string(out), "GOVC-REPRODUCED") {
+					return 1
+				}
+			}
+		}
+	}
 	return 0
 }
 
-func runSelftest(repo, verif, prop string, verbose bool) int {
-	return 0
-}
+var _ = ssa.Function{}
